@@ -341,6 +341,23 @@ def run(tier):
     bad = {fd[1] for fd in ck3.findings}
     if not any("all_bad" in k for k in bad) or any("all_good" in k for k in bad):
         ck.closed_fail.append("R6 control failed: fixture reports %s" % sorted(bad))
+    # R9 a finally handler registered on a pending promise passes the settlement through
+    import livebind
+    ck.rule("R9.finally-passes-settlement-through", "the function that registers one callback as both on_fulfilled and on_rejected of a PromiseHandler marks the handler "
+            "(a boolean field set to true), and the dispatcher switches on that field and calls the callback without arguments there", floor=2)
+    regs9, disp9 = livebind.finally_sites(fx, lambda g: g.file.endswith("builtins/promise.rs"))
+    ck.anchor(bool(regs9) and bool(disp9), "finally registration and handler dispatcher in promise.rs (found %d / %d)" % (len(regs9), len(disp9)))
+    for f9, sp9, ok9 in regs9:
+        ck.instance("R9.finally-passes-settlement-through", "%s registers one callback in both slots" % f9.path, F.short_span(sp9), ok=ok9)
+        if not ok9:
+            ck.finding("R9.finally-passes-settlement-through", "R9.finally-passes-settlement-through/%s" % f9.path, F.short_span(sp9),
+                       "`%s` registers the finally callback as a plain then-handler on a pending promise: the dispatcher calls it with the settled value and resolves the "
+                       "result with what it returns - `await pending.finally(() => 99)` gives 99 and a rejection is swallowed, while a settled promise is handled correctly" % f9.path)
+    for f9, sp9, ok9 in disp9:
+        ck.instance("R9.finally-passes-settlement-through", "%s dispatches marked handlers without arguments" % f9.path, F.short_span(sp9), ok=ok9)
+        if not ok9:
+            ck.finding("R9.finally-passes-settlement-through", "R9.finally-passes-settlement-through/%s/dispatch" % f9.path, F.short_span(sp9),
+                       "`%s` calls every handler callback with the settled value: a handler registered by finally() cannot be told apart" % f9.path)
     # R8 (shared with C02 G5b; control there): the frames rebuilt from a saved state own their roots.  A caller frame whose registers are rooted in the
     # VM's guard only loses them when the resumed callee returns into it - the uninterrupted run keeps them in the frame's own guard.
     import c02
